@@ -44,6 +44,11 @@ def dev(argv):
                             print("dumped", ob.name, ob.path, fn)
             if a.startswith("--only="):
                 obs = [ob for ob in obs if a[7:] in ob.name + "/" + ob.path]
+        if "--list" in sys.argv:
+            from collections import Counter
+            for (nm, pth), k in sorted(Counter((ob.name, ob.path) for ob in obs).items()):
+                print("  %-70s path=%s x%d" % (nm, pth, k))
+            continue
         if "--vacuity" in sys.argv:
             import z3
             from .ctx import Obligation
